@@ -67,6 +67,10 @@ def run_shape(prog, shape, tier, seed, res):
         y, mo, d, h, mi, s = [ctx.fresh_bv(n, 32) for n in ('y', 'mo', 'd', 'h', 'mi', 's')]
         ctx.assume(z3.And(y >= 1, y <= 9999, C.valid_ymd(y, mo, d), z3.ULT(h, 24), z3.ULT(mi, 60), z3.ULT(s, 60)))
         req_dt = C.from_civil(y, mo, d, h, mi, s, 0, 0)
+        # the server clock is anywhere inside the window, hence possibly on another UTC day than the request
+        delta = ctx.fresh_bv('delta', 32)
+        ctx.assume(z3.And(delta >= -900, delta <= 900))
+        srv_dt = C.DateTime(z3.simplify(req_dt.secs + z3.SignExt(32, delta)), 0, C.shift_civil(req_dt.civil, delta), 0)
         region = sym_bytes(ctx, 'R', Lr)
         service = sym_bytes(ctx, 'S', Ls)
         for e in region + service:
@@ -94,9 +98,9 @@ def run_shape(prog, shape, tier, seed, res):
         if tok is not None:
             auth.fields[2] = some(VecObj(list(tok), 'string'))
         fut = m.call('SigV4Authenticator::validate_signature',
-                     [Ptr(Cell(auth), ()), mk_str(region), mk_str(service), req_dt, C.TimeDelta(900), Ptr(Cell(prov), (), None, True)], None)
+                     [Ptr(Cell(auth), ()), mk_str(region), mk_str(service), srv_dt, C.TimeDelta(900), Ptr(Cell(prov), (), None, True)], None)
         r, polls = A.block_on(m, fut)
-        return (req_dt, region, service, parts, tok, r, prov)
+        return (req_dt, region, service, parts, tok, r, prov, delta)
 
     def on_path(pr):
         ctx = pr.ctx
@@ -104,7 +108,7 @@ def run_shape(prog, shape, tier, seed, res):
         if pr.kind == 'panic':
             res.findings.append(Finding('panic: %s' % pr.value.msg, {'shape': repr(shape)}, None, None, repr(shape)))
             return
-        req_dt, region, service, parts, tok, r, prov = pr.value
+        req_dt, region, service, parts, tok, r, prov, delta = pr.value
         o = outcome(r)
         k = len(parts)
 
@@ -115,6 +119,7 @@ def run_shape(prog, shape, tier, seed, res):
             civ = [model.eval(v, model_completion=True).as_long() for v in req_dt.civil]
             inp = {'credential': '/'.join(model_bytes(model, p).decode('latin-1') for p in parts), 'region': model_bytes(model, region).decode('latin-1'),
                    'service': model_bytes(model, service).decode('latin-1'), 'instant': civ,
+                   'server_delta': model.eval(delta, model_completion=True).as_signed_long(),
                    'token': model_bytes(model, tok).decode('latin-1') if tok is not None else None}
             res.findings.append(Finding(what, inp, None, None, repr(shape)))
         if k == 5:
@@ -186,7 +191,7 @@ import hashlib
 import hmac as pyhmac
 
 
-def native_case(rp, cred, region, service, civ, token, sig=None):
+def native_case(rp, cred, region, service, civ, token, sig=None, server_delta=0):
     y, mo, d, h, mi, s = civ
     secs = int((datetime.datetime(max(y, 1), mo, d, h, mi, s) - datetime.datetime(1970, 1, 1)).total_seconds())
     if sig is None:
@@ -195,7 +200,7 @@ def native_case(rp, cred, region, service, civ, token, sig=None):
         sig = pyhmac.new(bytes(32), sts, hashlib.sha256).hexdigest()
     r = rp.ask({'op': 'authenticator', 'canonical_request_sha256': 'ab' * 32, 'credential': cred, 'session_token': token, 'signature': sig,
                 'timestamp': {'secs': secs, 'nanos': 0}, 'call': 'validate_signature', 'region': region, 'service': service,
-                'server_time': {'secs': secs, 'nanos': 0}, 'mismatch_secs': 900, 'mismatch_nanos': 0,
+                'server_time': {'secs': secs + server_delta, 'nanos': 0}, 'mismatch_secs': 900, 'mismatch_nanos': 0,
                 'provider': {'result': {'signing_key_hex': '00' * 32}}, 'log_level': 'off'})
     res = r.get('result', {})
     calls = r.get('provider', {}).get('calls', [])
@@ -220,7 +225,7 @@ def replay_finding(rp, f):
     inp = f.inp
     if 'credential' not in inp:
         return False, None
-    nat = native_case(rp, inp['credential'], inp['region'], inp['service'], inp['instant'], inp['token'])
+    nat = native_case(rp, inp['credential'], inp['region'], inp['service'], inp['instant'], inp['token'], None, inp.get('server_delta', 0))
     ref = ref_case(inp['credential'], inp['region'], inp['service'], inp['instant'])
     bad = nat[0] != ref or (ref != 'ok' and len(nat[1]) != 0) or (ref == 'ok' and len(nat[1]) != 1)
     if not bad and ref == 'ok':
@@ -298,7 +303,7 @@ def describe(f):
 def bounds(tier):
     return ('credentials of 1..7 slash-separated symbolic ASCII parts; for five parts every single-field length variation (shorter, longer, empty) '
             'around (2, 8, |region|, |service|, 12)%s; server region/service symbolic ASCII strings of lengths %s; request instant every civil '
-            'date-time of years 1-9999; with and without session token; signature = reference signature for the presented scope' % (
+            'date-time of years 1-9999, server clock = request + delta with delta in [-900 s, +900 s] symbolic (so possibly on another UTC day); with and without session token; signature = reference signature for the presented scope' % (
                 '' if tier == 'quick' else ' and pairwise variations', '{(1,1),(2,1),(0,2)}' if tier == 'quick' else 'up to (3,2)'))
 
 
